@@ -121,7 +121,7 @@ func SpawnWorkers(c Cfg, n int, extraEnv func(i int) []string, gomaxprocs func(i
 					// finding about the tree, not harness trouble
 					rp := filepath.Join(ReplayDir(), fmt.Sprintf("%s-process-crash-%s-%d.log", c.Property, c.Mode, i))
 					_ = os.WriteFile(rp, all, 0o644)
-					parts[i] = &Partial{Worker: i, GoMaxProcs: gmp, Counters: Counters{"worker_processes_crashed_by_sut": 1},
+					parts[i] = &Partial{Worker: i, GoMaxProcs: gmp, Evaluations: 1, Counters: Counters{"worker_processes_crashed_by_sut": 1},
 						Violations: []ViolationRec{{Class: "process-crash", Detail: what, Replay: rp}}}
 					return
 				}
@@ -153,6 +153,7 @@ func SpawnWorkers(c Cfg, n int, extraEnv func(i int) []string, gomaxprocs func(i
 // CrashInSUT decides whether a dead worker's log shows a Go runtime crash whose first
 // goroutine trace runs through the system under test before any harness frame.
 func CrashInSUT(log string) (string, bool) {
+	log = "\n" + log
 	idx := -1
 	for _, marker := range []string{"fatal error: ", "\npanic: "} {
 		if k := strings.Index(log, marker); k >= 0 && (idx < 0 || k < idx) {
@@ -186,7 +187,7 @@ func CrashInSUT(log string) (string, bool) {
 	if len(lines) > 12 {
 		lines = lines[:12]
 	}
-	first := rest
+	first := strings.TrimLeft(rest, "\n")
 	if e := strings.Index(first, "\n"); e >= 0 {
 		first = first[:e]
 	}
